@@ -73,7 +73,12 @@ def judge(case):
             finally:
                 cn.COPY = True
             accepted = True
+            meta0 = [(tuple(np.shape(o)), str(np.asarray(o).dtype)) for o in ops]     # what the caller handed over
             def compare(stage):
+                for i, t in enumerate(ts):
+                    if i in whitelisted: continue
+                    if (tuple(t.shape), str(t.dtype)) != meta0[i]:
+                        v(f"operand-reshaped-by-{stage}", f"[{mode}] operand {i} was {meta0[i]} before the call and is {(tuple(t.shape), str(t.dtype))} after {stage}")
                 for i, (o, s0) in enumerate(zip(ops, snap_ops)):
                     if i in whitelisted: continue
                     if o.tobytes() != s0:
@@ -202,6 +207,14 @@ def boundary_cases():
                 add("softmax", [s], {"dim": -1}, pats=[pat], form="fn"); add("log_softmax", [s], {"dim": 0}, pats=[pat], form="fn")
                 add("bce", [s, s], pats=["target01", "target01"], form="fn"); add("bce", [s, s], {"reduction": "mean"}, pats=["target01", "target:0.3"], form="layer")
                 add("bce_logits", [s, s], pats=[pat, "target01"], form="fn"); add("mse", [s, s], pats=[pat, pat], form="fn")
+    # prediction and target with the same number of elements but different shapes (an (N,1) output against (N,) labels): whether
+    # the loss broadcasts, aligns or raises, it must not touch either tensor
+    for a, b in (((3, 1), (3,)), ((3,), (3, 1)), ((2, 3), (6,)), ((1, 4), (4, 1)), ((2, 1, 2), (2, 2))):
+        for form in ("fn", "layer"):
+            args = {} if form == "fn" else {"reduction": "mean"}
+            add("mse", [a, b], args, pats=["generic", "generic"], form=form)
+            add("bce", [a, b], args, pats=["prob", "target01"], form=form)
+            add("bce_logits", [a, b], args, pats=["logits", "target01"], form=form)
     return out
 
 def all_cases(tier):
